@@ -288,6 +288,10 @@ Proof.
     cbn [sstep].
     pose proof (expire_colls_views_inv x (map fst (s_colls s)) s [] (fun c H => H) Hinv) as H.
     destruct (expire_colls s x (map fst (s_colls s)) []) as [s' evs]. exact H.
+  - (* failed attempts: the clock only moves forward *)
+    pose proof Hinv as [Ht Hs Hv Hc Hw].
+    apply (views_inv_same_data s); try reflexivity; [apply (sstep_tables_ok s x (SDraw coll key op b) Ht) | apply (sstep_ok s x (SDraw coll key op b) I Hs) | | exact Hv | exact Hinv].
+    cbn. destruct (_ =? 0); [lia|]. pose proof (hlc_now_gt (s_high s) (x_clock x)). lia.
 Qed.
 
 Lemma store0_views_inv : views_inv store0.
